@@ -43,7 +43,9 @@ def _spec(draw, tier):
     return {"pins": pins, "dw": dw, "aw_slack": draw(st.sampled_from([0, 0, 0, 0, 1, 1, 2, 0, 0, -1])),
             "stages": draw(st.integers(0, 3)), "stim": draw(conforming_stimulus(max_txn=40, min_txn=12, modes=("r", "w", "w", "w", "rw"))),
             "pin_hold": draw(st.integers(1, 4)),
-            "weights": draw(st.lists(st.integers(0, 3), min_size=16, max_size=16))}
+            "weights": draw(st.lists(st.integers(0, 3), min_size=16, max_size=16)),
+            # synchronous resets of the peripheral between bus transactions, pins carrying whatever they carry
+            "resets": draw(st.sampled_from([0, 0, 0, 1, 2]))}
 
 
 def strategy(tier):
@@ -108,10 +110,27 @@ def check(spec, stats):
             stats.label("output_write")
         if complete and "r" in mode and ri == 1:
             stats.label("input_read")
-    model = MuxModel(dw, regs)
+    model = [MuxModel(dw, regs)]
     seed = stim["dseed"]
     bus = dut.bus
-    top = sim.wrap(dut)
+    reset_at = set()
+    if spec.get("resets"):
+        # [idle, idle with reset asserted, idle] between two transactions
+        from amaranth import Signal, ResetInserter
+        rst = Signal(name="verif_rst")
+        bounds = [t for t in range(1, len(cycles)) if cycles[t][4] != cycles[t - 1][4]]
+        picks = sorted({bounds[hval(seed, "rst", k, 20) % len(bounds)] for k in range(spec["resets"])}, reverse=True) if bounds else []
+        for t in picks:
+            idle = (0, 0, 0, 0, None, "idle around reset")
+            cycles[t:t] = [idle, idle, idle]
+        off = 0
+        for t in sorted(picks):
+            reset_at.add(t + off + 1)
+            off += 3
+        top = sim.wrap(ResetInserter(rst)(dut))
+        stats.label("reset_between_transactions", bool(reset_at))
+    else:
+        top = sim.wrap(dut)
     pm = (1 << pins) - 1
     st_ = {"mode": 0, "out": 0, "hist": [0] * (stages + 1)}
     o_cat = Cat(*[p.o for p in dut.pins])
@@ -120,6 +139,8 @@ def check(spec, stats):
     async def tb(ctx):
         for t, (addr, r_stb, w_stb, w_data, txn, note) in enumerate(cycles):
             ctx.set(bus.addr, addr); ctx.set(bus.r_stb, r_stb); ctx.set(bus.w_stb, w_stb); ctx.set(bus.w_data, w_data)
+            if reset_at:
+                ctx.set(rst, int(t in reset_at))
             pin_i = 0
             for n in range(pins):
                 v = hval(seed, f"pin{n}", t // spec["pin_hold"], 1)
@@ -128,7 +149,7 @@ def check(spec, stats):
             # hist[0] = current level, hist[k] = level k cycles ago
             st_["hist"] = [pin_i] + st_["hist"][:stages]
             delayed = st_["hist"][stages]
-            e = model.step(addr, r_stb, w_stb, w_data, [st_["mode"], delayed, st_["out"], 0], txn)
+            e = model[0].step(addr, r_stb, w_stb, w_data, [st_["mode"], delayed, st_["out"], 0], txn)
             where = (f"cycle {t} ({note}) addr={addr:#x} r_stb={r_stb} w_stb={w_stb} w_data={w_data:#x} mode={st_['mode']:#x} "
                      f"out={st_['out']:#b} pins_i={pin_i:#b} registers {[(n, r.start, r.end) for n, r in zip(NAMES, regs)]}")
             got = ctx.get(bus.r_data)
@@ -184,6 +205,12 @@ def check(spec, stats):
             new = (new | eff_set) & ~eff_clr
             # set/clr codes take priority over the direct write on their pins; 00/11 leave the direct write
             st_["out"] = new & pm
+            if t in reset_at:
+                # the registers return to their initial values; the pin synchroniser is reset-less and carries on
+                st_["mode"] = st_["out"] = 0
+                model[0] = MuxModel(dw, regs)
+                if any(st_["hist"]):
+                    stats.label("reset_with_pins_high")
             await ctx.tick()
 
     sim.simulate(top, tb)
